@@ -7,6 +7,8 @@ package types
 import (
 	"sync"
 	"sync/atomic"
+
+	"github.com/zishang520/engine.io/v2/verifhook"
 )
 
 // Map is like a Go map[any]any but is safe for concurrent use
@@ -131,6 +133,9 @@ func (m *Map[TKey, TValue]) Load(key TKey) (value TValue, ok bool) {
 	read := m.loadReadOnly()
 	e, ok := read.m[key]
 	if !ok && read.amended {
+		if verifhook.Enabled {
+			verifhook.Point("map.slowPath", m, "Load")
+		}
 		m.mu.Lock()
 		// Avoid reporting a spurious miss if m.dirty got promoted while we were
 		// blocked on m.mu. (If further loads of the same key will not miss, it's
@@ -173,6 +178,9 @@ func (m *Map[TKey, TValue]) Clear() {
 		return
 	}
 
+	if verifhook.Enabled {
+		verifhook.Point("map.slowPath", m, "Clear")
+	}
 	m.mu.Lock()
 	defer m.mu.Unlock()
 
@@ -241,6 +249,9 @@ func (m *Map[TKey, TValue]) LoadOrStore(key TKey, value TValue) (actual TValue, 
 		}
 	}
 
+	if verifhook.Enabled {
+		verifhook.Point("map.slowPath", m, "LoadOrStore")
+	}
 	m.mu.Lock()
 	read = m.loadReadOnly()
 	if e, ok := read.m[key]; ok {
@@ -304,6 +315,9 @@ func (m *Map[TKey, TValue]) LoadAndDelete(key TKey) (value TValue, loaded bool) 
 	read := m.loadReadOnly()
 	e, ok := read.m[key]
 	if !ok && read.amended {
+		if verifhook.Enabled {
+			verifhook.Point("map.slowPath", m, "LoadAndDelete")
+		}
 		m.mu.Lock()
 		read = m.loadReadOnly()
 		e, ok = read.m[key]
@@ -369,6 +383,9 @@ func (m *Map[TKey, TValue]) Swap(key TKey, value TValue) (previous TValue, loade
 		}
 	}
 
+	if verifhook.Enabled {
+		verifhook.Point("map.slowPath", m, "Swap")
+	}
 	m.mu.Lock()
 	read = m.loadReadOnly()
 	if e, ok := read.m[key]; ok {
@@ -410,6 +427,9 @@ func (m *Map[TKey, TValue]) CompareAndSwap(key TKey, old TValue, new TValue) (sw
 		return false // No existing value for key.
 	}
 
+	if verifhook.Enabled {
+		verifhook.Point("map.slowPath", m, "CompareAndSwap")
+	}
 	m.mu.Lock()
 	defer m.mu.Unlock()
 	read = m.loadReadOnly()
@@ -438,6 +458,9 @@ func (m *Map[TKey, TValue]) CompareAndDelete(key TKey, old TValue) (deleted bool
 	read := m.loadReadOnly()
 	e, ok := read.m[key]
 	if !ok && read.amended {
+		if verifhook.Enabled {
+			verifhook.Point("map.slowPath", m, "CompareAndDelete")
+		}
 		m.mu.Lock()
 		read = m.loadReadOnly()
 		e, ok = read.m[key]
@@ -488,6 +511,9 @@ func (m *Map[TKey, TValue]) Range(f func(key TKey, value TValue) bool) {
 		// (assuming the caller does not break out early), so a call to Range
 		// amortizes an entire copy of the map: we can promote the dirty copy
 		// immediately!
+		if verifhook.Enabled {
+			verifhook.Point("map.slowPath", m, "Range")
+		}
 		m.mu.Lock()
 		read = m.loadReadOnly()
 		if read.amended {
